@@ -74,3 +74,4 @@ let run inp obs : string option * string option =
      | Some e, _, _ | None, Some e, _ | None, None, Some e -> (Some e, None)
      | None, None, None -> (None, None))
   | _ -> (Some "unparsable C14 case", None)
+let () = Evalreg.register "C14" run
